@@ -103,7 +103,7 @@ func VerifC07Untouched() {
 	deco := verifChoice("decoratedNode", c07Nodes)
 	v := verifStrN("v", 1, "49")
 	i := 0
-	which := verifChoice("update", 19)
+	which := verifChoice("update", 22)
 	c07KeyS = "s"
 	var u c07Update
 	// positions: root.Content = [ka, a, kc, c, ks, s]; a.Content = [kb, b]; c.Content = [c0, c1]
@@ -155,6 +155,14 @@ func VerifC07Untouched() {
 		u = c07Update{name: "delete-selected-by-lookup-nothing-matches", text: "del(.c[] | select(. as $e | parent | parent | .nope | . == \"none\"))"}
 	case 18:
 		u = c07Update{name: "append-looked-up-default", text: ".c += [(.a.b as $k | .zz.yy // 7770009)]", skipAfter: [][]int{{3, 2}}}
+	// a list filled with copies of values that sit under map keys, then an element of that list deleted (the survivors
+	// are renumbered): the keys the copies came from stay what they were
+	case 19:
+		u = c07Update{name: "delete-from-list-of-copied-map-values", text: ".n = [.a.b, .s, 7770009] | del(.n[0])", skipAfter: [][]int{{6}, {7}}}
+	case 20:
+		u = c07Update{name: "delete-from-list-of-all-values", text: ".n = [.[]] | del(.n[1])", skipAfter: [][]int{{6}, {7}}}
+	case 21:
+		u = c07Update{name: "delete-selected-from-list-of-copies", text: ".n = [.a[], .s] | del(.n[] | select(. == 7770009))", skipAfter: [][]int{{6}, {7}}}
 	}
 	d := c07DrawDeco()
 	doc := c07Doc(x, deco, d)
